@@ -1,0 +1,216 @@
+//go:build verif
+
+package fzf
+
+// Export shims for the external verification harness (build tag "verif").
+// Thin wrappers over unexported units so that they can be driven at their own
+// boundary from outside the package. No logic, no state.
+
+import (
+	"io"
+
+	"github.com/junegunn/fzf/src/algo"
+	"github.com/junegunn/fzf/src/tui"
+	"github.com/junegunn/fzf/src/util"
+)
+
+// ---- tokenizer / field expressions
+
+func VerifDelimiter(spec string) Delimiter { return delimiterRegexp(spec) }
+
+func VerifTokenText(t Token) string { return t.text.ToString() }
+
+func VerifTokenPrefixLength(t Token) int { return int(t.prefixLength) }
+
+func VerifSplitNth(str string) ([]Range, error) { return splitNth(str) }
+
+func VerifRangeBounds(r Range) (int, int) { return r.begin, r.end }
+
+// VerifNthTransform renders the --with-nth / --accept-nth template for one line.
+func VerifNthTransform(spec string, delimiter Delimiter, line string, index int32) (string, error) {
+	fn, err := nthTransformer(spec)
+	if err != nil {
+		return "", err
+	}
+	return fn(delimiter)(Tokenize(line, delimiter), index), nil
+}
+
+// ---- items / patterns
+
+func VerifNewItem(text string, index int32) *Item {
+	item := &Item{text: util.ToChars([]byte(text))}
+	item.text.Index = index
+	return item
+}
+
+func VerifItemText(item *Item) string { return item.text.ToString() }
+
+// VerifBuildPattern builds a pattern the way core.go does (fresh caches).
+func VerifBuildPattern(fuzzy bool, fuzzyAlgo int, extended bool, caseMode Case, normalize bool, forward bool,
+	withPos bool, nth []Range, delimiter Delimiter, query string) *Pattern {
+	algoFn := algo.FuzzyMatchV2
+	if fuzzyAlgo == 1 {
+		algoFn = algo.FuzzyMatchV1
+	}
+	return BuildPattern(NewChunkCache(), make(map[string]*Pattern), fuzzy, algoFn, extended, caseMode, normalize,
+		forward, withPos, false, nth, delimiter, revision{}, []rune(query), nil)
+}
+
+type VerifMatch struct {
+	Matched   bool
+	Offsets   [][2]int32
+	Positions []int
+	HasPos    bool
+	Points    [4]uint16
+}
+
+func VerifMatchItem(p *Pattern, item *Item, withPos bool, slab *util.Slab) VerifMatch {
+	result, offsets, pos := p.MatchItem(item, withPos, slab)
+	if result == nil {
+		return VerifMatch{}
+	}
+	m := VerifMatch{Matched: true, Points: result.points}
+	for _, o := range offsets {
+		m.Offsets = append(m.Offsets, [2]int32{o[0], o[1]})
+	}
+	if pos != nil {
+		m.HasPos = true
+		m.Positions = append(m.Positions, (*pos)...)
+	}
+	return m
+}
+
+func VerifSetSortCriteria(names []string) {
+	sortCriteria = nil
+	for _, n := range names {
+		switch n {
+		case "score":
+			sortCriteria = append(sortCriteria, byScore)
+		case "chunk":
+			sortCriteria = append(sortCriteria, byChunk)
+		case "length":
+			sortCriteria = append(sortCriteria, byLength)
+		case "begin":
+			sortCriteria = append(sortCriteria, byBegin)
+		case "end":
+			sortCriteria = append(sortCriteria, byEnd)
+		case "pathname":
+			sortCriteria = append(sortCriteria, byPathname)
+		}
+	}
+}
+
+// ---- ANSI
+
+type VerifAnsiState struct {
+	Fg, Bg, Lbg int32
+	Attr        int32
+	HasURL      bool
+	URI, Params string
+}
+
+type VerifAnsiSpan struct {
+	Begin, End int32
+	State      VerifAnsiState
+}
+
+func toVerifState(s *ansiState) *VerifAnsiState {
+	if s == nil {
+		return nil
+	}
+	v := &VerifAnsiState{Fg: int32(s.fg), Bg: int32(s.bg), Lbg: int32(s.lbg), Attr: int32(s.attr)}
+	if s.url != nil {
+		v.HasURL, v.URI, v.Params = true, s.url.uri, s.url.params
+	}
+	return v
+}
+
+func fromVerifState(v *VerifAnsiState) *ansiState {
+	if v == nil {
+		return nil
+	}
+	s := &ansiState{fg: tui.Color(v.Fg), bg: tui.Color(v.Bg), lbg: tui.Color(v.Lbg), attr: tui.Attr(v.Attr)}
+	if v.HasURL {
+		s.url = &url{uri: v.URI, params: v.Params}
+	}
+	return s
+}
+
+// VerifExtractColor runs extractColor with a carried-over state.
+func VerifExtractColor(str string, state *VerifAnsiState) (string, []VerifAnsiSpan, bool, *VerifAnsiState) {
+	trimmed, offsets, newState := extractColor(str, fromVerifState(state), nil)
+	var spans []VerifAnsiSpan
+	if offsets != nil {
+		for _, o := range *offsets {
+			c := o.color
+			spans = append(spans, VerifAnsiSpan{o.offset[0], o.offset[1], *toVerifState(&c)})
+		}
+	}
+	return trimmed, spans, offsets != nil, toVerifState(newState)
+}
+
+// ---- history
+
+func VerifHistoryAppend(h *History, line string) error { return h.append(line) }
+func VerifHistoryOverride(h *History, s string)        { h.override(s) }
+func VerifHistoryCurrent(h *History) string            { return h.current() }
+func VerifHistoryPrevious(h *History) string           { return h.previous() }
+func VerifHistoryNext(h *History) string               { return h.next() }
+
+// ---- reader
+
+// VerifFeed drives Reader.feed over an arbitrary io.Reader.
+func VerifFeed(src io.Reader, delimNil bool, pusher func([]byte) bool) {
+	r := NewReader(pusher, util.NewEventBox(), nil, delimNil, false)
+	r.feed(src)
+}
+
+// VerifReadFiles runs the built-in walker and returns what it pushed.
+func VerifReadFiles(roots []string, file, dir, hidden, follow bool, ignores []string, pusher func([]byte) bool) bool {
+	r := NewReader(pusher, util.NewEventBox(), nil, false, false)
+	return r.readFiles(roots, walkerOpts{file: file, dir: dir, hidden: hidden, follow: follow}, ignores)
+}
+
+// ---- options
+
+type VerifAction struct {
+	Type string
+	Arg  string
+}
+
+func verifActions(actions []*action) []VerifAction {
+	out := make([]VerifAction, 0, len(actions))
+	for _, a := range actions {
+		out = append(out, VerifAction{a.t.String(), a.a})
+	}
+	return out
+}
+
+// VerifParseKeymap parses one --bind specification into a fresh keymap.
+func VerifParseKeymap(spec string) (map[tui.Event][]VerifAction, error) {
+	keymap := make(map[tui.Event][]*action)
+	if err := parseKeymap(keymap, spec); err != nil {
+		return nil, err
+	}
+	out := make(map[tui.Event][]VerifAction)
+	for k, v := range keymap {
+		out[k] = verifActions(v)
+	}
+	return out, nil
+}
+
+func VerifKeymap(opts *Options) map[tui.Event][]VerifAction {
+	out := make(map[tui.Event][]VerifAction)
+	for k, v := range opts.Keymap {
+		out[k] = verifActions(v)
+	}
+	return out
+}
+
+func VerifParseActionList(spec string) ([]VerifAction, error) {
+	actions, err := parseSingleActionList(spec)
+	if err != nil {
+		return nil, err
+	}
+	return verifActions(actions), nil
+}
